@@ -1,8 +1,9 @@
 import NetqasmVerif.Driver.Codec
 import NetqasmVerif.Driver.Angle
+import NetqasmVerif.Driver.Hub
 open Lean NQ.Drv
 
-def handlers : List (String → Json → Option Json) := [handleCodec, handleAngle]
+def handlers : List (String → Json → Option Json) := [handleCodec, handleAngle, handleHub]
 
 def dispatch (j : Json) : Json :=
   match (jField? j "op").bind jStr? with
